@@ -41,7 +41,7 @@ PLAIN_OPS = ["new_sec", "new_prop", "new_sec_parent", "new_prop_parent", "create
 TARGETED_OPS = ["x_clash_append", "x_clash_parent", "x_clash_insert", "x_clash_rename",
                 "x_clash_setitem", "x_cycle_parent", "x_cycle_append", "x_attached_append",
                 "x_attached_insert", "x_extend_dup", "x_ctor_bad_card", "x_ctor_clash",
-                "x_setitem_own", "x_reorder_neg", "x_clash_create", "x_extend_clash", "x_insert_badpos"]
+                "x_setitem_own", "x_reorder_neg", "x_clash_create", "x_extend_clash", "x_insert_badpos", "x_reorder_badpos"]
 
 STEP = st.tuples(st.sampled_from(PLAIN_OPS + TARGETED_OPS),
                  st.integers(0, 40), st.integers(0, 40), st.integers(-8, 10),
@@ -375,13 +375,21 @@ class Engine(object):
             def do():
                 lst[pos] = obj
             call(do)
-        elif op in ("reorder", "x_reorder_neg"):
+        elif op in ("reorder", "x_reorder_neg", "x_reorder_badpos"):
             obj = self.pick(a, ("sec", "prop"))
+            if op == "x_reorder_badpos":
+                # a position that is no index, on an object that has siblings
+                att = [o for o in U if kind(o) in ("sec", "prop") and o._parent is not None and
+                       len(self.children(o._parent, kind(o))) >= 2]
+                obj = att[a % len(att)] if att else None
             if obj is None:
                 info["skipped"] = True
                 return info
             idx = c if op == "reorder" else -1 - (b % 8)
-            if idx < 0:
+            if op == "x_reorder_badpos":
+                idx = [1.5, 0.0, None, "0", 0.5][b % 5]
+                info["cls"].append("reorder:position_not_an_index")
+            if isinstance(idx, int) and idx < 0:
                 info["cls"].append("reorder:negative")
             call(lambda: obj.reorder(idx))
         elif op in ("rename", "x_clash_rename", "rename_empty"):
